@@ -411,6 +411,9 @@ func DeserializeNode(data []byte) (Node, error) {
 		return nil, err
 	}
 	if pNode.Branch != nil {
+		if len(pNode.Branch.Children) > branchNodeLength {
+			return nil, errors.New("invalid branch node: too many children")
+		}
 		branchNode := routingNode{}
 		branchNode.hash = pNode.Branch.Hash
 		for i, child := range pNode.Branch.Children {
@@ -422,6 +425,9 @@ func DeserializeNode(data []byte) (Node, error) {
 				if len(child) == hashWithWeightLength {
 					branchNode.Children[i] = childNodeValue
 				} else {
+					if len(child) < hashWithWeightLength+32 {
+						return nil, errors.New("invalid branch node: truncated short child")
+					}
 					childNodeValue.hash = child[hashWithWeightLength : hashWithWeightLength+32]
 					childKey := child[hashWithWeightLength+32:]
 					branchNode.Children[i] = &shortNode{
